@@ -1168,7 +1168,11 @@ func (e stakingCustomPrecompiledContractRwWithdrawRewards) withdrawRewards(ctx s
 		return false, err
 	}
 
-	allRewards, err := distkeeper.NewQuerier(dk).DelegationTotalRewards(ctx, &disttypes.QueryDelegationTotalRewardsRequest{
+	// the querier ends the current reward period of every validator the delegator is bonded to, which writes to the
+	// distribution store; run it on a branch of the state which is discarded, so that the only effect of this method
+	// is the effect of the withdraw messages below (each of them ends the period of its own validator)
+	queryCtx, _ := ctx.CacheContext()
+	allRewards, err := distkeeper.NewQuerier(dk).DelegationTotalRewards(queryCtx, &disttypes.QueryDelegationTotalRewardsRequest{
 		DelegatorAddress: delegatorAddrStr,
 	})
 	if err != nil {
